@@ -498,14 +498,8 @@ pub fn prop(tier: Tier) -> Prop {
       Part {
         name: "faults",
         body: Box::new(body(vec![0, 1, 2, 3])),
-        modes: vec![Mode::Deviations(0), Mode::Deviations(1)],
-        what: "one fault (any answer of the alphabet) at any single loader call / npm answer of the four fixtures",
-      },
-      Part {
-        name: "faults-plain-pairs",
-        body: Box::new(body(vec![0])),
-        modes: vec![Mode::Deviations(2)],
-        what: "any two faults in the plain fixture",
+        modes: vec![Mode::Deviations(0), Mode::Deviations(1), Mode::Deviations(2)],
+        what: "up to two faults (any answer of the alphabet) at any loader calls / npm answers of the four fixtures",
       },
       Part {
         name: "faults-x-schedules",
